@@ -85,6 +85,29 @@ func CorsCases(seed int64, n int) []Case {
 		id := fmt.Sprintf("cors-rand-%04d", i)
 		out = append(out, Case{ID: id, Family: "cors", Spec: d.Root, Flags: Flags{Cors: i%6 != 0, Client: false}, Safe: true, Label: map[string]string{"set": id}})
 	}
+	{
+		// an apiKey header whose name is not in canonical form: what is advertised is
+		// the header, not the spelling
+		d := NewDoc("cors-apikey-spelling")
+		d.Comp("securitySchemes", "k", M{"type": "apiKey", "in": "header", "name": "X-API-KEY"})
+		d.Comp("securitySchemes", "t", M{"type": "apiKey", "in": "header", "name": "x-tenant-token"})
+		d.Op("/a", "get", M{"security": L{M{"k": L{}}}, "parameters": L{ParamNode("If-None-Match", "header", false, Prim("string", ""))}})
+		d.Op("/b", "get", M{"security": L{M{"t": L{}}}})
+		d.Op("/b", "post", M{"security": L{M{"k": L{}}, M{"t": L{}}}})
+		d.Op("/c", "delete", M{})
+		id := "cors-fixed-apikey-header-spelling"
+		out = append(out, Case{ID: id, Family: "cors", Spec: d.Root, Flags: Flags{Cors: true}, Safe: true, Label: map[string]string{"set": id}})
+	}
+	{
+		// one header declared by two operations of a path in different letter case
+		d := NewDoc("cors-header-case")
+		d.Op("/orders/{id}", "get", M{"parameters": L{ParamNode("id", "path", true, Prim("string", "")), ParamNode("X-Request-ID", "header", false, Prim("string", ""))}})
+		d.Op("/orders/{id}", "put", M{"parameters": L{ParamNode("id", "path", true, Prim("string", "")), ParamNode("x-request-id", "header", false, Prim("string", "")), ParamNode("If-Match", "header", true, Prim("string", ""))}})
+		d.Op("/orders/{id}", "delete", M{"parameters": L{ParamNode("id", "path", true, Prim("string", "")), ParamNode("X-Request-Id", "header", false, Prim("string", ""))}})
+		d.Op("/plain", "get", M{"parameters": L{ParamNode("x-request-id", "header", false, Prim("string", ""))}})
+		id := "cors-fixed-header-letter-case"
+		out = append(out, Case{ID: id, Family: "cors", Spec: d.Root, Flags: Flags{Cors: true}, Safe: true, Label: map[string]string{"set": id}})
+	}
 	return out
 }
 
